@@ -998,7 +998,31 @@ def chk_qsvt(rng, tier):
     # (b) documented semantics of qp.qsvt: Re(top-left block) = poly(A)
     deg = rng.randint(1, 5)
     poly = rand_parity_poly(rng, deg)
-    enc = rng.choice(["embedding", "embedding", "fable", "prepselprep", "qubitization"])
+    enc = rng.choice(["embedding", "embedding", "fable", "prepselprep", "qubitization", "rect", "rect"])
+    if enc == "rect":
+        # rectangular A with block_encoding="embedding": singular value transformation  W P(S) V^dag (odd P, top-left r x c block)
+        # or V P(S) V^dag (even P, top-left c x c block); the projectors alternate between dimensions c and r
+        r, c = rng.choice([(2, 3), (3, 2), (1, 2), (2, 1), (1, 3), (3, 4)])
+        A = np.array([[rng.uniform(-1, 1) for _ in range(c)] for _ in range(r)])
+        A = A / max(np.linalg.norm(A @ A.T, np.inf), np.linalg.norm(A.T @ A, np.inf), 1e-9) ** 0.5 * rng.uniform(0.3, 0.95)
+        nw = max(1, math.ceil(math.log2(r + c)))
+        wires = labels_for(rng, nw)
+        op = safe_qsvt(A, poly, encoding_wires=wires, block_encoding="embedding")
+        if op is None:
+            return None
+        W, S, Vh = np.linalg.svd(A, full_matrices=False)
+        PS = np.array([sum(float(cf) * sv ** k for k, cf in enumerate(poly)) for sv in S])
+        odd = (len(poly) - 1) % 2 == 1
+        if odd:
+            target, shp = W @ np.diag(PS) @ Vh, (r, c)
+        else:
+            # even polynomial: P(0) on the null space of A as well (V completed to a full basis)
+            Wf, Sf, Vhf = np.linalg.svd(A, full_matrices=True)
+            Sfull = np.concatenate([Sf, np.zeros(c - len(Sf))])
+            target, shp = Vhf.T @ np.diag([sum(float(cf) * sv ** k for k, cf in enumerate(poly)) for sv in Sfull]) @ Vhf, (c, c)
+        def f(M):
+            return np.abs(M[:shp[0], :shp[1]].real - target).max()
+        return record_fn("QSVT", {"kind": "qsvt:rectangular", "shape": [r, c], "poly": poly.tolist(), "wires": wires}, routes(op, wires), f, tol=2e-6)
     if enc in ("embedding", "fable"):
         d = rng.choice([1, 2, 2, 4]) if enc == "embedding" else 2
         G = np.array([[rng.uniform(-1, 1) for _ in range(d)] for _ in range(d)])
